@@ -50,8 +50,9 @@ Theorem C12_lock_discipline_sound :
 Proof. exact lock_discipline_sound. Qed.
 Print Assumptions C12_lock_discipline_sound.
 
-(* (3) THE GENERATED OBLIGATION: the lock table extracted from the current source passes *)
-Theorem C12_table_ok_current : table_ok Gen.SyncTable.table = true.
+(* (3) THE GENERATED OBLIGATION: the lock table extracted from the current source passes --
+   including the lock-free readers of every reference a wrapper returns to its caller *)
+Theorem C12_table_ok_current : table_ok (with_result_readers Gen.SyncTable.table) = true.
 Proof. vm_compute. reflexivity. Qed.
 Print Assumptions C12_table_ok_current.
 
@@ -61,15 +62,16 @@ Theorem C12_no_plain_write_outside_write_sections : Gen.SyncTable.race_exception
 Proof. reflexivity. Qed.
 Print Assumptions C12_no_plain_write_outside_write_sections.
 
-(* (2)+(3): no race state is reachable with the wrappers of the current source *)
+(* (2)+(3): no race state is reachable with the wrappers of the current source, in programs
+   that mix wrapper calls and reads of the values earlier calls returned *)
 Theorem C12_no_race_current :
   forall (St Loc Ret : Type) body_of loc0 ret_of (s : St) (prog : tid -> list wrapper) c,
-    calls_in Gen.SyncTable.table prog ->
+    calls_in (with_result_readers Gen.SyncTable.table) prog ->
     treachable St Loc Ret body_of loc0 ret_of (tinit St Loc Ret s prog) c ->
     ~ race_state St Loc Ret c.
 Proof.
   exact (fun St Loc Ret body_of loc0 ret_of =>
-           lock_discipline_sound St Loc Ret body_of loc0 ret_of Gen.SyncTable.table C12_table_ok_current).
+           lock_discipline_sound St Loc Ret body_of loc0 ret_of (with_result_readers Gen.SyncTable.table) C12_table_ok_current).
 Qed.
 Print Assumptions C12_no_race_current.
 
@@ -119,7 +121,15 @@ Definition retag (name : string) (m : mode) (w : wrapper) : wrapper :=
   if String.eqb (w_name w) name then
     {| w_name := w_name w; w_shape := w_shape w;
        w_sections := map (fun s => {| s_mode := m; s_callees := s_callees s; s_pr := s_pr s;
-                                       s_pw := s_pw s; s_ar := s_ar s; s_aw := s_aw s |}) (w_sections w) |}
+                                       s_pw := s_pw s; s_ar := s_ar s; s_aw := s_aw s |}) (w_sections w);
+       w_escapes := w_escapes w |}
+  else w.
+
+(* GetPolicy as it was before the repair of F38: it returns the model's own rule list *)
+Definition leak (name : string) (loc : string) (w : wrapper) : wrapper :=
+  if String.eqb (w_name w) name then
+    {| w_name := w_name w; w_shape := w_shape w; w_sections := w_sections w;
+       w_escapes := map fst (filter (fun p => String.eqb (snd p) loc) Gen.SyncTable.loc_names) |}
   else w.
 
 Example C12_nonvacuous :
@@ -129,9 +139,10 @@ Example C12_nonvacuous :
                s_mode s = R /\ s_pw s = [] /\ s_aw s <> []) /\
   table_ok (map (retag "AddPolicy" R) Gen.SyncTable.table) = false /\
   table_ok (map (retag "GetPolicy" NoLock) Gen.SyncTable.table) = false /\
+  table_ok (with_result_readers (map (leak "GetPolicy" "model.Assertion.Policy[]") Gen.SyncTable.table)) = false /\
   List.length Gen.SyncTable.table >= 100.
 Proof.
-  split; [|split; [|split; [|split]]].
+  split; [|split; [|split; [|split; [|split]]]].
   - assert (H : existsb (fun w => String.eqb (w_name w) "AddPolicy" &&
                  match w_sections w with [s] => mode_eqb (s_mode s) W && negb (N.eqb (N.of_nat (List.length (s_pw s))) 0) | _ => false end)
                  Gen.SyncTable.table = true) by (vm_compute; reflexivity).
@@ -150,6 +161,7 @@ Proof.
     + destruct (s_mode s); auto; discriminate.
     + destruct (s_pw s); auto; discriminate.
     + intro Z. rewrite Z in Ha. discriminate.
+  - vm_compute. reflexivity.
   - vm_compute. reflexivity.
   - vm_compute. reflexivity.
   - vm_compute. repeat constructor.
